@@ -488,6 +488,11 @@ var c12Hostile = []string{
 	"services:\n  a: {constructor: X, scope: shared, tags: [t]}\ndecorators:\n  - {tag: t, decorator: D, arguments: [\"@gone\", \"%gone%\"]}\n",
 	"services:\n  a: {constructor: X, scope: contextual, arguments: [\"@gone\"]}\n  b: {constructor: X, scope: shared, calls: [[M, [\"@a\", \"@gone2\"]]]}\n",
 	"services:\n  a: {constructor: X, scope: non_shared, arguments: [\"@a\", \"%p%\"]}\nparameters: {p: \"%q%\", q: \"%p%%gone%\"}\n",
+	// strings that are no valid UTF-8 (only !!binary can carry them) around token boundaries
+	"parameters:\n  p: !!binary /yUl\n", "parameters:\n  p: !!binary /yVhJQ==\n", "parameters:\n  p: !!binary //8lYSUl\n", "parameters:\n  a: 1\n  p: !!binary /yVhJXh4\n",
+	"parameters:\n  p: !!binary wyglYSU=\n", "parameters:\n  p: !!binary 7aCAJSU=\n", "parameters:\n  p: !!binary JWVudigi/yIpJQ==\n",
+	"services:\n  s: {constructor: X, arguments: [!!binary /yVhJQ==, !!binary /yUl], fields: {F: !!binary //8lJXg=}}\n", "services:\n  s: {constructor: !!binary /1g=, getter: !!binary /0c=, tags: [!!binary /3Q=]}\n",
+	"decorators:\n  - {tag: t, decorator: D, arguments: [!!binary /yVhJXh4]}\n", "meta:\n  imports: {a: !!binary /2E=}\n  functions: {f: !!binary /2Y=}\n", "version: !!binary /zEuMi4z\n",
 	"", "%", "%%%", "@", "!value ", "!tagged ", "<<: {a: 1}\n", "a: &x [*x]\n", "services: {\"\": {}}\n", "parameters: {\"\": \"\"}\n",
 	"services:\n  s:\n    calls: [[]]\n", "services:\n  s:\n    calls: [[1, 2, 3, 4]]\n", "services:\n  s:\n    tags: [{priority: 1e99}]\n",
 	"services:\n  s:\n    tags: [{name: t, priority: 99999999999999999999}]\n", "version: 1\n", "version: [1]\n", "version: \"999999999999999999999.0.0\"\n",
